@@ -355,6 +355,9 @@ def run_presync(case, ctx):
 def run_numpy(case, ctx):
     from pyg_base import df_sync, df_reindex, df_index
     arrs = [np.array(a, dtype=float) if not isinstance(a, dict) else np.array(a['m'], dtype=float).reshape(len(a['m']), a['k']) for a in case['arrays']]
+    for i_, dt_ in enumerate(case.get('dtypes') or []):
+        if dt_ != 'float' and arrs[i_].ndim == 1:      # integer / bool arrays: padding still means NaN, never a cast of NaN
+            arrs[i_] = (arrs[i_] % 2 == 0) if dt_ == 'bool' else arrs[i_].astype(dt_)
     before = [a.copy() for a in arrs]
     cont = list(arrs) if case['cont'] == 'list' else {('k%d' % i): a for i, a in enumerate(arrs)}
     policy = case['policy']
@@ -468,7 +471,10 @@ def gen_case(rng):
         arrays = [a if not isinstance(a, dict) else a for a in arrays]
         if any(isinstance(a, dict) for a in arrays) and len({a['k'] for a in arrays if isinstance(a, dict)}) > 1:
             arrays = [a for a in arrays if not isinstance(a, dict)] or [[1.0, 2.0]]
-        return {'kind': 'numpy', 'arrays': arrays, 'policy': rng.choice(['ij', 'oj', 'lj', 'rj']), 'cont': rng.choice(['list', 'dict']), 'api': rng.choice(['df_reindex', 'df_sync'])}
+        case = {'kind': 'numpy', 'arrays': arrays, 'policy': rng.choice(['ij', 'oj', 'lj', 'rj']), 'cont': rng.choice(['list', 'dict']), 'api': rng.choice(['df_reindex', 'df_sync'])}
+        if rng.random() < 0.4:
+            case['dtypes'] = [rng.choice(['float', 'int64', 'int32', 'bool']) for _ in arrays]
+        return case
     if r < 0.3:
         nargs = rng.randint(1, 3)
         items = [gen_container(rng, ids, rng.choice([1, 2, 3]), False, True) for _ in range(3)]
